@@ -134,7 +134,7 @@ pub fn behaviour() -> Behaviour {
         prop: "C08",
         rule: "structs, enums and unions with Default educed: every position of the variant / union-field marker, per-field expressions in every spelling \
                (Default = lit, Default(expression = e), expr = e, expression(e), expr(e)) over literal kinds (int, float, bool, char, str, byte, byte string, \
-               suffixed, negative, compound expressions) x field types (natural type or a type reached through Into), type-level expression, `new`; \
+               suffixed, negative, compound expressions) x field types (natural type, an alias of it, or a type reached through Into), type-level expression, `new`; \
                default() (and new()) is compared field by field with the value the model designates (the field's expression converted as documented, else the \
                field type's own Default::default()); non-trivial = marker not on the first position, or a field expression, or a type-level expression with new",
         salt: 0xC08,
